@@ -713,7 +713,7 @@ const char* model_fault_name(int f)
 {
     static const char* n[] = {"dup-location-name", "drop-argument",  "extra-argument",   "unknown-template", "dup-template-name", "system-no-semicolon",
                               "dup-process",       "dup-declaration", "dup-parameter",   "foreign-target",   "init-is-branchpoint", "unknown-process", "empty-template", "bad-dynamic-declaration", "no-system", "extra-initialiser", "function-without-return",
-                              "urgent-and-committed", "dynamic-parameter-mismatch", "random-initialiser"};
+                              "urgent-and-committed", "dynamic-parameter-mismatch", "random-initialiser", "global-declaration-in-template", "bad-iteration-type"};
     return f >= 0 && f < MF_COUNT ? n[f] : "?";
 }
 
@@ -894,6 +894,33 @@ bool apply_model_fault(Model& m, int fault, Rng& rng, bool semantic_only)
         static const char* forms[] = {"double zrnd = random(5);", "const double zrnd = random_normal(1.0, 2.0);", "double zrnd = random_tri(0, 1, 2);",
                                       "int zrnd[2] = { 1, 2 }; double zrnd2 = random_poisson(2.0);"};
         d.text = forms[rng.below(4)];
+        if (rng.chance(0.6) || m.templs.empty())
+            m.gdecls.push_back(d);
+        else
+            m.templs[rng.below((uint32_t)m.templs.size())].decls.push_back(d);
+        return true;
+    }
+    case MF_GLOBAL_DECL_IN_TEMPLATE: {
+        if (m.templs.empty())
+            return false;
+        MTempl& t = m.templs[rng.below((uint32_t)m.templs.size())];
+        MDecl d;
+        d.kind = MDecl::OTHER;
+        d.name = "zglob";
+        static const char* forms[] = {"dynamic ZD(const int za);", "process ZQ() { state za; init za; }", "ZI = ZQ();", "chan priority ch0 < default;",
+                                      "before_update { gi0 = 0 }", "after_update { gi0 = 1 }", "system ZQ;", "import \"libz.so\" { int zext(int a); };"};
+        d.text = forms[rng.below(8)];
+        t.decls.insert(t.decls.begin() + rng.below((uint32_t)t.decls.size() + 1), d);
+        return true;
+    }
+    case MF_BAD_ITERATION_TYPE: {
+        if (semantic_only && m.old_syntax)
+            return false;  // the 3.x syntax has no iteration statement: a syntax error there
+        MDecl d;
+        d.kind = MDecl::FUN;
+        d.name = "zbadit";
+        static const char* types[] = {"bool", "clock", "double", "chan"};
+        d.text = std::string{"void zbadit() {\n  int zz = 0;\n  for (zi : "} + types[rng.below(4)] + ") { zz++; }\n}";
         if (rng.chance(0.6) || m.templs.empty())
             m.gdecls.push_back(d);
         else
